@@ -247,7 +247,8 @@ def judge_run(ctx, W, r, before, after):
     """contract expectation (from TLC) vs. what the real binary did.  -> list of (sig, detail)"""
     w, exp, R = W.world, W.exp, W.R
     out = []
-    base = {"tag": w["tag"], "argv": w["argv"], "shape": w["shape"], "fault": w["pkgfault"], "fp": w["fp"]["point"]}
+    base = {"tag": w["tag"], "argv": w["argv"], "shape": w["shape"], "fault": w["pkgfault"], "fp": w["fp"]["point"],
+            "envspell": w.get("envspell", "lower")}
 
     def bad(kind, **kw):
         sig = dict(base, kind=kind)
